@@ -542,6 +542,9 @@ pub fn main_c05(out: &Path, tier: &str, seed: u64) {
         compare("corelib_tests", &c_runs, &mut failures, &mut stats);
     }
 
+    // ---- the kernel's tie: real lowerings before / after the real branch_inversion pass ----
+    let pass_stats = pass_leg(out, &progs, tier);
+
     let total_items: u64 = stats.values().map(|v| v["items"].as_u64().unwrap_or(0)).sum();
     let total_cmp: u64 = stats.values().map(|v| v["comparisons"].as_u64().unwrap_or(0)).sum();
     let summary = serde_json::json!({
@@ -549,7 +552,7 @@ pub fn main_c05(out: &Path, tier: &str, seed: u64) {
         "legs": stats, "items": total_items, "comparisons": total_cmp,
         "gen_programs": progs.len(), "gen_constructs": gstats.constructs,
         "reference_checked": ref_checked, "reference_disagreements": ref_bad,
-        "failures": failures.len(), "samples": samples,
+        "failures": failures.len(), "samples": samples, "pass_cases": pass_stats,
     });
     std::fs::write(out.join("c05_summary.json"), serde_json::to_string_pretty(&summary).unwrap()).unwrap();
     std::fs::write(out.join("c05_failures.json"), serde_json::to_string_pretty(&failures).unwrap()).unwrap();
@@ -561,4 +564,55 @@ pub fn main_c05(out: &Path, tier: &str, seed: u64) {
         ref_checked,
         failures.len()
     );
+}
+
+/// Prints case shards `c05_pass_*.v`: (lowering before the pass, lowering after the REAL pass).
+fn pass_leg(out: &Path, progs: &[crate::ast::Program], tier: &str) -> serde_json::Value {
+    use cairo_lang_filesystem::ids::CrateInput;
+    let cfg = Config::base();
+    let mut all: Vec<crate::lower::PassCase> = vec![];
+    let mut errors = vec![];
+    let limit = if tier == "thorough" { 4000 } else { 600 };
+    // generated programs (one crate) and the examples
+    let (src, _) = crate::crate_source(progs);
+    let gen_path = out.join("src").join("c05_pass_gen.cairo");
+    std::fs::write(&gen_path, src).unwrap();
+    for path in [gen_path.as_path(), Path::new("/repo/examples")] {
+        let mut db = run::build_db(&cfg);
+        let inputs = match setup_project(&mut db, path) {
+            Ok(i) => i,
+            Err(e) => {
+                errors.push(format!("setup_project({}): {e:?}", path.display()));
+                continue;
+            }
+        };
+        let db = &db;
+        let crate_ids = CrateInput::into_crate_ids(db, inputs);
+        match crate::lower::pass_cases(db, &crate_ids, limit) {
+            Ok(cs) => all.extend(cs),
+            Err(e) => errors.push(format!("{}: {e}", path.display())),
+        }
+    }
+    let fired = all.iter().filter(|c| c.fired).count();
+    let with_not = all.iter().filter(|c| c.bool_not_calls > 0).count();
+    let mut shard = 0;
+    for chunk in all.chunks(60) {
+        let mut s = String::from("From C05 Require Import Corr.\nOpen Scope nat_scope.\n");
+        let mut cs = vec![];
+        for (k, c) in chunk.iter().enumerate() {
+            let id = shard * 1000 + k;
+            s.push_str(&format!("(* {} *)\nDefinition b_{k} : lowered :=\n   {}.\nDefinition a_{k} : lowered :=\n   {}.\n", c.name, c.before, c.after));
+            cs.push(format!("{{| pc_id := {id}%Z; pc_before := b_{k}; pc_after := a_{k} |}}"));
+        }
+        s.push_str(&format!("Definition cases : list pcase := [\n  {}\n].\n", cs.join(";\n  ")));
+        s.push_str("Definition fired := Eval vm_compute in count_fired cases.\nPrint fired.\n");
+        s.push_str("Definition bad := Eval vm_compute in check_pass cases.\nPrint bad.\n");
+        std::fs::write(out.join(format!("c05_pass_{shard:03}.v")), s).unwrap();
+        shard += 1;
+    }
+    serde_json::json!({
+        "functions": all.len(), "functions_where_pass_fires": fired, "functions_with_bool_not_call": with_not,
+        "blocks": all.iter().map(|c| c.blocks).sum::<usize>(), "shards": shard, "errors": errors,
+        "sample_fired": all.iter().find(|c| c.fired).map(|c| serde_json::json!({"function": c.name, "before": c.before, "after": c.after})),
+    })
 }
